@@ -197,6 +197,9 @@ pub fn script_for(focus: &str) -> Option<Vec<ScriptOp>> {
             }
             Some(v)
         }
+        // a free list of several pages (> 1022 freed leaf pages) is written, read back by a reopen (the portions of a
+        // multi-page list must come back in the same order), drained and refilled by commits after further reopens
+        "script-freelist-reopen" => Some(vec![Fill(3300, 1300), DeleteAll, Reopen, Fill(40, 1300), Reopen, Fill(40, 1300), Fill(900, 1300), DeleteAll, Reopen, Fill(300, 1300), Reopen, Fill(30, 700)]),
         // a sub-trie two page levels down crosses the page-elision threshold (20 leaves) upwards, downwards and
         // upwards again: pages that were elided get materialised (their WAL diff must carry the reconstructed
         // nodes) and materialised ones get elided
@@ -1092,6 +1095,70 @@ impl<'a> Engine<'a> {
         self.ev("bad_chain_attempts");
     }
 
+    /// A chain of 2..3 fresh overlays on the committed state whose batches keep touching the SAME keys (a key the parent
+    /// deleted is blindly rewritten or deleted again by the child, a key the parent wrote is deleted / overwritten by the
+    /// child), committed oldest first and then rolled back one commit at a time: every intermediate state must come back
+    /// (the reverse delta of an overlay commit is built while its ancestors are still uncommitted overlays).
+    fn op_overlay_chain_rollback(&mut self) {
+        if !self.cfg.rollback {
+            return self.op_overlay_new();
+        }
+        let depth = self.rng.range(2, 3);
+        let mut chain: Vec<usize> = vec![]; // child first
+        let mut created: Vec<usize> = vec![];
+        for d in 0..depth {
+            let view = self.chain_view(&chain);
+            let mut ws: Vec<(Key, Option<Val>)> = vec![];
+            if d == 0 {
+                let existing: Vec<Key> = view.keys().cloned().collect();
+                for k in existing.iter() {
+                    if ws.len() >= 6 {
+                        break;
+                    }
+                    if self.rng.chance(1, 3) {
+                        let v = if self.rng.chance(2, 3) { None } else { Some(self.gen_val()) };
+                        ws.push((*k, v));
+                    }
+                }
+                for _ in 0..self.rng.range(1, 3) {
+                    let k = self.gen_key();
+                    let v = self.gen_val();
+                    ws.push((k, Some(v)));
+                }
+            } else {
+                let parent_changes = self.ovs[chain[0]].changes.clone();
+                for (k, v) in parent_changes {
+                    if self.rng.chance(2, 3) {
+                        let nv = match v {
+                            None => if self.rng.chance(3, 4) { Some(self.gen_val()) } else { None },
+                            Some(_) => if self.rng.chance(1, 2) { None } else { Some(self.gen_val()) },
+                        };
+                        ws.push((k, nv));
+                    }
+                }
+                let k = self.gen_key();
+                let v = self.gen_val();
+                ws.push((k, Some(v)));
+            }
+            ws.sort_by(|a, b| a.0.cmp(&b.0));
+            ws.dedup_by(|a, b| a.0 == b.0);
+            let Some(fid) = self.session_to_fin_with(&chain, 2, 0, Some(ws)) else { return };
+            let oid = self.fin_to_overlay(fid, &chain);
+            chain.insert(0, oid);
+            created.push(oid);
+        }
+        self.ev("overlay_chain_rollback");
+        for &oid in &created {
+            if !self.alive() {
+                return;
+            }
+            self.overlay_commit_inner(oid, false);
+        }
+        for _ in 0..self.rng.range(1, depth) {
+            self.op_rollback_n(1);
+        }
+    }
+
     fn op_overlay_commit(&mut self) {
         let held: Vec<usize> = (0..self.ovs.len()).filter(|&i| self.ovs[i].handle.is_some() && !self.ovs[i].committed).collect();
         if held.is_empty() {
@@ -1422,6 +1489,7 @@ impl<'a> Engine<'a> {
             "commit_nw" => self.op_commit_no_writes(),
             "overlay_new" => self.op_overlay_new(),
             "overlay_commit" => self.op_overlay_commit(),
+            "ov_chain_rb" => self.op_overlay_chain_rollback(),
             "overlay_drop" => self.op_overlay_drop(),
             "bad_chain" => self.op_bad_chain(),
             "stale" => self.op_stale(),
@@ -1454,6 +1522,7 @@ pub const W_GENERAL: &[(usize, &str)] = &[
     (6, "overlay_new"),
     (4, "overlay_commit"),
     (1, "overlay_drop"),
+    (1, "ov_chain_rb"),
     (1, "bad_chain"),
     (2, "stale"),
     (1, "busy"),
@@ -1465,8 +1534,8 @@ pub const W_GENERAL: &[(usize, &str)] = &[
 pub fn weights_for(focus: &str) -> Vec<(usize, &'static str)> {
     match focus {
         "kv" => vec![(12, "commit"), (2, "overlay_new"), (2, "overlay_commit"), (1, "rollback"), (2, "reopen"), (1, "read_all")],
-        "rollback" => vec![(8, "commit"), (3, "commit_nw"), (3, "overlay_new"), (3, "overlay_commit"), (8, "rollback"), (3, "reopen"), (2, "stale")],
-        "overlay" => vec![(3, "commit"), (10, "overlay_new"), (6, "overlay_commit"), (2, "overlay_drop"), (3, "bad_chain"), (2, "rollback"), (1, "reopen"), (1, "stale")],
+        "rollback" => vec![(8, "commit"), (3, "commit_nw"), (3, "overlay_new"), (3, "overlay_commit"), (3, "ov_chain_rb"), (8, "rollback"), (3, "reopen"), (2, "stale")],
+        "overlay" => vec![(3, "commit"), (10, "overlay_new"), (6, "overlay_commit"), (2, "ov_chain_rb"), (2, "overlay_drop"), (3, "bad_chain"), (2, "rollback"), (1, "reopen"), (1, "stale")],
         "reject" => vec![(4, "commit"), (3, "overlay_new"), (3, "overlay_commit"), (8, "stale"), (4, "busy"), (4, "rollback"), (1, "reopen")],
         "reopen" => vec![(8, "commit"), (1, "commit_nw"), (3, "overlay_new"), (3, "overlay_commit"), (3, "rollback"), (8, "reopen"), (1, "stale")],
         _ => W_GENERAL.to_vec(),
